@@ -297,37 +297,51 @@ fn io_coerce_narrowing() {
 // C07-S / C08: IoSafeState::apply -- afterwards every configured address holds its safe value
 // ---------------------------------------------------------------------------------------------
 
-// @unit id=io.safe_state.apply props=C07,C08 tier=quick kind=bounded bound="2 entries (BYTE, WORD), 3-byte image, offsets<=3 (inside, straddling, beyond)" timeout=1200 fn=IoSafeState::apply,IoInterface::write
+// @unit id=io.safe_state.apply props=C07,C08 tier=quick kind=bounded bound="2 entries (BYTE at %QB0, WORD at %QB2), 1-byte image, values full domain" timeout=1500 fn=IoSafeState::apply,IoInterface::write
 #[kani::proof]
 #[kani::stub(std::hash::RandomState::new, fixed_rs)]
-#[kani::unwind(18)]
+#[kani::unwind(12)]
 fn io_safe_state_apply() {
-    let img: [u8; 3] = kani::any();
-    let (i0, q0, m0) = (vec![0xA5u8, 0x5A], img.to_vec(), vec![0x3Cu8]);
-    let mut io = mk_io(i0.clone(), q0.clone(), m0.clone());
-    let (b1, b2): (u32, u32) = (kani::any(), kani::any());
-    kani::assume(b1 <= 3 && b2 <= 3);
+    let q: u8 = kani::any();
+    let mut io = mk_io(vec![0xA5u8], vec![q], vec![0x3Cu8]);
     let (v1, v2): (u8, u16) = (kani::any(), kani::any());
-    let a1 = addr(IoArea::Output, IoSize::Byte, b1, 0);
-    let a2 = addr(IoArea::Output, IoSize::Word, b2, 0);
+    let a1 = addr(IoArea::Output, IoSize::Byte, 0, 0);
+    let a2 = addr(IoArea::Output, IoSize::Word, 2, 0);
     let safe = IoSafeState { outputs: vec![(a1.clone(), Value::Byte(v1)), (a2.clone(), Value::Word(v2))] };
     let r = safe.apply(&mut io);
     let ok = matches!(&r, Ok(()));
     std::mem::forget(r);
     assert!(ok, "applying a well-formed safe state succeeds");
-    // the later entry always holds; the earlier one holds unless the later one overlaps it
+    let (r1, r2) = (io.read(&a1), io.read(&a2));
+    let ok12 = matches!(&r1, Ok(Value::Byte(x)) if *x == v1) && matches!(&r2, Ok(Value::Word(x)) if *x == v2);
+    std::mem::forget((r1, r2));
+    assert!(ok12, "every safe-state address holds its safe value in the output image");
+    assert!(at(&io.outputs, 1) == 0, "bytes between the entries are zero-filled, not garbage");
+    assert!(io.inputs.len() == 1 && io.inputs[0] == 0xA5 && io.memory.len() == 1 && io.memory[0] == 0x3C, "the safe state only touches the output image");
+    kani::cover!(v1 != q && v2 > 255);
+    std::mem::forget(safe);
+}
+
+// overlapping entries: the later entry wins on the shared byte
+// @unit id=io.safe_state.overlap props=C07,C08 tier=thorough kind=bounded bound="2 entries (BYTE at %QB1, WORD at %QB0), 1-byte image, values full domain" timeout=1500 fn=IoSafeState::apply,IoInterface::write
+#[kani::proof]
+#[kani::stub(std::hash::RandomState::new, fixed_rs)]
+#[kani::unwind(12)]
+fn io_safe_state_overlap() {
+    let q: u8 = kani::any();
+    let mut io = mk_io(vec![0xA5u8], vec![q], vec![0x3Cu8]);
+    let (v1, v2): (u8, u16) = (kani::any(), kani::any());
+    let a1 = addr(IoArea::Output, IoSize::Byte, 1, 0);
+    let a2 = addr(IoArea::Output, IoSize::Word, 0, 0);
+    let safe = IoSafeState { outputs: vec![(a1.clone(), Value::Byte(v1)), (a2.clone(), Value::Word(v2))] };
+    let r = safe.apply(&mut io);
+    let ok = matches!(&r, Ok(()));
+    std::mem::forget(r);
+    assert!(ok);
     let r2 = io.read(&a2);
     let ok2 = matches!(&r2, Ok(Value::Word(x)) if *x == v2);
     std::mem::forget(r2);
-    assert!(ok2, "every safe-state address holds its safe value in the output image");
-    let overlap = b1 == b2 || b1 == b2 + 1;
-    if !overlap {
-        let r1 = io.read(&a1);
-        let ok1 = matches!(&r1, Ok(Value::Byte(x)) if *x == v1);
-        std::mem::forget(r1);
-        assert!(ok1, "every safe-state address holds its safe value in the output image");
-    }
-    assert!(io.inputs == i0 && io.memory == m0, "the safe state only touches the output image");
-    kani::cover!(overlap);
-    kani::cover!(!overlap && b1 as usize >= q0.len());
+    assert!(ok2, "the later entry holds its value");
+    kani::cover!(v1 != (v2 >> 8) as u8);
+    std::mem::forget(safe);
 }
